@@ -248,6 +248,20 @@ theorem quiet_while_paused (s : Store) (stop : Stop) (r : Req) :
               simp
             | tail _ h => exact hno t h
 
+/-- link tree / store of the non-vacuity examples: root 0 with children 2, 3 (not held; child 9) and 4 -/
+def exRLT : Responder.LT := .node 0 [.node 2 [], .node 3 [.node 9 []], .node 4 []]
+def exRStore : Store := { held := [0, 2, 4] }
+
+/-- non-vacuity of `responder_pause_resume` / `quiet_while_paused`: the executor does stop for a pause —
+    by the block hook at its second call (after 2 of 4 links), and by a PauseResponse signal during the
+    third block load — and in both cases work is left for the resumption (a test of concrete values) -/
+example :
+    (executeQuery exRStore (.hookPause 2) 7 {} { trav := { todo := [exRLT] } }).2.2.2 = .paused ∧
+    (executeQuery exRStore (.hookPause 2) 7 {} { trav := { todo := [exRLT] } }).2.2.1.length = 2 ∧
+    (executeQuery exRStore (.sigPause 3) 7 {} { trav := { todo := [exRLT] } }).2.2.2 = .paused ∧
+    (executeQuery exRStore (.sigPause 3) 7 {} { trav := { todo := [exRLT] } }).2.2.1.length = 3 ∧
+    (executeQuery exRStore .never 7 {} { trav := { todo := [exRLT] } }).2.2.1.length = 5 := by decide
+
 end responder
 
 /-! ## requestor pauses (GS.PauseResume) -/
@@ -397,6 +411,19 @@ theorem requestor_pause_resume_local (st : List (Cid × Blk)) (lt : LT) (u : Nat
       PauseResume.blocksOf res.2 = PauseResume.blocksOf base.2 ∧ delivered res.2 = delivered base.2) :=
   local_pause_resume st lt u hookAt ops hops hc
 
+/-- non-vacuity of `requestor_pause_resume_local` / `stale_dropped_run`: a requestor holding all three
+    blocks, hook pauses after blocks 1 and 2: the request is paused twice and ends after the second
+    Unpause having delivered everything; a stale message in between changes nothing (concrete values) -/
+example :
+    let lt : LT := [⟨9, [], 0, 2, 0⟩, ⟨2, [0], 1, 1, 1⟩, ⟨3, [1], 1, 1, 0⟩]
+    let st : List (Cid × Blk) := [(9, 9), (2, 2), (3, 3)]
+    (PauseResume.exchange st lt 0 [1, 2] []).1.paused = true ∧
+    (PauseResume.exchange st lt 0 [1, 2] [.unpause]).1.paused = true ∧
+    (PauseResume.exchange st lt 0 [1, 2] [.unpause, .msg { status := 14, md := [(3, .present)], blocks := [(3, 3)] }, .unpause]).1.R.phase
+      = .finished ∧
+    PauseResume.blocksOf (PauseResume.exchange st lt 0 [1, 2] [.unpause, .msg { status := 14, md := [(3, .present)], blocks := [(3, 3)] }, .unpause]).2
+      = [(9, []), (2, [0]), (3, [1])] := by decide
+
 /-! ### a pause before the request has gone to the network -/
 
 /-- **C06.requestor_pause_resume_before_online.**  The block hook pauses the request after a block that
@@ -423,6 +450,17 @@ theorem requestor_pause_resume_before_online (st : List (Cid × Blk)) (pre post 
   · simp [hardErrs_append, hardErrs]
   · simp [delivered_append, delivered]
   · simp [sentNews_append, sentNews]
+
+/-- non-vacuity of `requestor_pause_resume_before_online`: the requestor holds the root and its first
+    child, pauses after the second block, resumes, misses the third block and fetches it (concrete values) -/
+example :
+    let pre : LT := [⟨9, [], 0, 2, 0⟩, ⟨2, [0], 1, 1, 1⟩]
+    let post : LT := [⟨3, [1], 1, 1, 0⟩]
+    let msgs : List Requestor.Msg := [⟨true, true, 20, [(9, .present), (2, .present), (3, .present)], [(3, 3)]⟩]
+    (∀ n ∈ pre, has [(9, 9), (2, 2)] n = true) ∧
+    (PauseResume.exchange [(9, 9), (2, 2)] (pre ++ post) 0 [2] (PauseResume.Op.unpause :: msgs.map toOp)).2 =
+      [.block 9 [] true 1, .prog 2, .block 2 [0] true 2, .prog 1, .sentCancel, .sentNew 2,
+       .write 3 3, .block 3 [1] false 3, .prog 1] := by decide
 
 /-! ### regression for the defect fixed in /repo b4f998f, and the counterexamples -/
 
